@@ -648,7 +648,9 @@ func (x *Exec) intrinsic(st *State, fr *Frame, resInstr ssa.Instruction, name st
 		}
 		return nil, true
 	case name == "fmt.Sprintf", name == "fmt.Sprint":
-		set(x.freshValue(st, "sprintf", resT(0)))
+		rv := x.freshValue(st, "sprintf", resT(0))
+		st.events = append(st.events, &Event{Kind: "call", Name: fn.Name(), Callee: x.funcValue(fn, nil), Args: args, Results: []Value{rv}, Index: len(st.events)})
+		set(rv)
 		return nil, true
 	}
 	return nil, false
